@@ -653,11 +653,87 @@ Definition run_metric (c : case) : bytes :=
   | _ => str_badcase
   end.
 
+(* kind 5 (whole pipeline, observed at the consumer): sargs = template, n key names, the records' key values;
+   zargs = n, mode (0 live, 1 spill + restart).  Per record: hex tag "/" key set of the delivering pipeline,
+   or "-" when the record is not delivered. *)
+Definition str_err_config : bytes := [101;114;114;58;99;111;110;102;105;103]. (* "err:config" *)
+
+Fixpoint find_attached (name : bytes) (ps : list (option bytes * pipeline)) : option pipeline :=
+  match ps with
+  | [] => None
+  | (Some nm, p) :: r => if bytes_eqb nm name then Some p else find_attached name r
+  | (None, _) :: r => find_attached name r
+  end.
+
+Fixpoint find_dir (name : bytes) (ds : list qdir) : option qdir :=
+  match ds with
+  | [] => None
+  | d :: r => if bytes_eqb name (qd_name d) then Some d else find_dir name r
+  end.
+
+Definition run_e2e (c : case) : bytes :=
+  match c_zargs c, c_sargs c with
+  | [zn; zm], tmpl :: rest =>
+    if negb (in_range zn 1 8 && in_range zm 0 1)%bool then str_badcase else
+    let n := nat_of_Z zn in
+    if Nat.ltb (length rest) n then str_badcase else
+    let names := firstn n rest in
+    match tuples_of n (skipn n rest) with
+    | None => str_badcase
+    | Some tuples =>
+      match tmpl, parse_template names tmpl with
+      | [], _ => str_err_config                       (* ".tag is unspecified" *)
+      | _, None => str_err_config
+      | _, Some parts =>
+        match run_ops parts g_init [[]] (map (fun t => (O, t)) tuples) with
+        | Ok (g, _, is) =>
+          let deliver_live := fun i =>
+            match nth_error (g_pipes g) i with
+            | Some p => hex (p_tag p) ++ 47 :: hex_tuple (p_keys p)
+            | None => dash
+            end in
+          if (zm =? 0)%Z then str_ok ++ colon :: join 59 (map deliver_live is) else
+          let (root0, refs) := make_dirs md5_hex 18 qroot_empty (g_pipes g) in
+          let root := store_chunks root0 refs is O in
+          let listed := list_buffer_ids (root_entries 18 root) in
+          match orch_init parts n (dedup [] listed) with
+          | Ok g2 =>
+            let attached := map (fun p => (queue_dir_name md5_hex (p_id p), p)) (g_pipes g2) in
+            let deliver := fun i =>
+              match nth_error (g_pipes g) i, nth i refs QNone with
+              | Some p, QSub name =>
+                match find_dir name (qr_dirs root) with
+                | Some d =>
+                  match qd_id d with
+                  | Some id =>
+                    if existsb (bytes_eqb id) listed then
+                      match find_attached name attached with
+                      | Some p2 => hex (p_tag p) ++ 47 :: hex_tuple (p_keys p2)
+                      | None => dash
+                      end
+                    else dash
+                  | None => dash
+                  end
+                | None => dash
+                end
+              | _, _ => dash
+              end in
+            str_ok ++ colon :: join 59 (map deliver is)
+          | _ => str_panic
+          end
+        | _ => str_panic
+        end
+      end
+    end
+  | _, _ => str_badcase
+  end.
+
 Definition run_case_C06 (c : case) : bytes :=
   match c_kind c with
   | 1 => run_route c
   | 2 => run_disk c
   | 3 => run_list c
   | 4 => run_metric c
+  | 5 => run_e2e c
   | _ => str_badcase
   end.
